@@ -80,12 +80,29 @@ type Deco struct {
 	mu    sync.Mutex
 	plan  Plan
 	calls []Call
+	// the API server's WATCH CACHE: a List whose options ask for "any version" (ResourceVersion "0" / non-empty, or
+	// ResourceVersionMatch) may be answered from it, i.e. with the store as of the last `apisync` op; a List with empty
+	// options is a consistent (quorum) read.  The client-go fake ignores these options, so the decorator models them.
+	Cache *WatchCache
 	// schedule hooks (thorough tier): called without holding mu
 	Before func(idx int, verb, name string)
 	After  func(idx int, verb, name string)
 }
 
 func NewDeco(inner crdclient.Interface) *Deco { return &Deco{inner: inner, plan: NoPlan()} }
+
+// WatchCache: the (possibly stale) snapshot the API server answers non-consistent LISTs from.
+type WatchCache struct {
+	mu   sync.Mutex
+	Snap *v1alpha1.FloatingIPList
+	Hits int
+}
+
+func (c *WatchCache) Set(l *v1alpha1.FloatingIPList) {
+	c.mu.Lock()
+	c.Snap = l.DeepCopy()
+	c.mu.Unlock()
+}
 
 func (d *Deco) Discovery() discovery.DiscoveryInterface { return d.inner.Discovery() }
 func (d *Deco) GalaxyV1alpha1() typed.GalaxyV1alpha1Interface {
@@ -205,6 +222,17 @@ func (f *decoFIP) Get(ctx context.Context, name string, opts metav1.GetOptions) 
 
 func (f *decoFIP) List(ctx context.Context, opts metav1.ListOptions) (res *v1alpha1.FloatingIPList, err error) {
 	err = f.d.around("list", "", func() error {
+		if c := f.d.Cache; c != nil && (opts.ResourceVersion != "" || opts.ResourceVersionMatch != "") {
+			c.mu.Lock()
+			defer c.mu.Unlock()
+			c.Hits++
+			if c.Snap == nil {
+				res = &v1alpha1.FloatingIPList{}
+			} else {
+				res = c.Snap.DeepCopy()
+			}
+			return nil
+		}
 		var e error
 		res, e = f.FloatingIPInterface.List(ctx, opts)
 		return e
@@ -391,6 +419,7 @@ type World struct {
 	Ipam    floatingip.IPAM
 	handler cache.ResourceEventHandler
 	inf     *lagInformer
+	Cache   *WatchCache // the API server's watch cache: survives restarts of galaxy-ipam, refreshed by op `apisync`
 	Conf    Conf       // current configuration (what a restart reloads)
 	Pools   []PoolInfo // decoded current configuration, sorted by gateway (stable)
 	Pending []Event
@@ -404,11 +433,25 @@ func NewWorld(objs ...runtime.Object) *World {
 }
 
 func (w *World) boot() {
+	if w.Cache == nil {
+		w.Cache = &WatchCache{}
+		w.ApiCacheSync()
+	}
 	w.Deco = NewDeco(w.Store)
+	w.Deco.Cache = w.Cache
 	w.inf = &lagInformer{idx: cache.NewIndexer(cache.MetaNamespaceKeyFunc, cache.Indexers{})}
 	w.refreshInformerCache() // a starting process waits for the informer's initial sync
 	w.Ipam = floatingip.NewCrdIPAM(w.Deco, &lagFIPInformer{w.inf})
 	w.handler = w.inf.h
+}
+
+// ApiCacheSync: the API server's watch cache catches up with the store.
+func (w *World) ApiCacheSync() {
+	l, err := w.Store.GalaxyV1alpha1().FloatingIPs().List(context.TODO(), metav1.ListOptions{})
+	if err != nil {
+		panic(err)
+	}
+	w.Cache.Set(l)
 }
 
 // refreshInformerCache makes the informer's cache equal to the store.
@@ -655,7 +698,9 @@ func (w *World) CloneStore() *fakecrd.Clientset {
 // FreshFrom: what a newly started galaxy-ipam would hold, given this store and the current configuration.
 func (w *World) FreshFrom() (Mem, error) {
 	cs := w.CloneStore()
-	ip := floatingip.NewCrdIPAM(cs, nil)
+	d := NewDeco(cs)
+	d.Cache = w.Cache // a process started now talks to the same API server, watch cache included
+	ip := floatingip.NewCrdIPAM(d, nil)
 	pools, err := w.Conf.Decode()
 	if err != nil {
 		return Mem{}, err
